@@ -188,6 +188,16 @@ def judge(case, res):
     for i, (e, g, o) in enumerate(zip(exp, got, orig)):
         # the harness must have built what the spec says (guards the oracle itself)
         if o != e:
+            # The library built something else than the spec says (its own normalisation of a name, say). The round trip
+            # is then judged on the library's own terms: what was written must still come back as what was built.
+            o2 = dict(o)
+            if o["action"] == "Split" and o["af"] == "default" and g["af"] == "__global__" and not others_named:
+                o2["af"] = "__global__"
+            if g != o2:
+                diff = {k: (str(o2.get(k)), str(g.get(k))) for k in set(o2) | set(g) if o2.get(k) != g.get(k)}
+                f.append({"what": "transaction read back differs from the one written", "index": i, "fields": diff, "spec": txs[i],
+                          "note": "compared with the transaction as the library built it"})
+                return f, {}
             return None, {"why": "harness built a different Tx than the spec", "i": i, "spec": str(e), "built": str(o)}
         e2 = dict(e)
         if e["action"] == "Split" and e["af"] == "default" and g["af"] == "__global__" and not others_named:
